@@ -46,6 +46,7 @@ def var_tokens(key: str) -> Set[str]:
 
 PURE_TYPE_PREDICATES = ('callable', 'inspect.ismethod', 'inspect.isfunction', 'inspect.isclass', 'inspect.iscoroutinefunction', 'inspect.isawaitable', 'inspect.iscoroutine',
                         'asyncio.isfuture', 'asyncio.iscoroutinefunction', 'asyncio.iscoroutine', 'ismethod', 'isfunction', 'isclass', 'isfuture', 'iscoroutinefunction')
+PURE_QUERIES = ('done', 'cancelled', 'is_terminal', 'has_terminated', 'finished')
 PURE_BUILTINS = ('callable', 'isinstance', 'issubclass', 'len', 'bool', 'hasattr', 'type', 'id')
 
 
@@ -416,6 +417,12 @@ class FuncFacts:
             return all(isinstance(o, (ast.Is, ast.IsNot, ast.Eq, ast.NotEq, ast.In, ast.NotIn)) for o in e.ops) and all(isinstance(x, (ast.Name, ast.Constant)) for x in [e.left] + e.comparators)
         if isinstance(e, ast.Call) and isinstance(e.func, ast.Name) and e.func.id == 'isinstance' and len(e.args) == 2 and not e.keywords:
             return isinstance(e.args[0], ast.Name)
+        # zero-argument state queries of futures and states (``self.done()``, ``fut.cancelled()``, ``self._state.is_terminal()``): they read, they call nothing back
+        if isinstance(e, ast.Call) and not e.args and not e.keywords and isinstance(e.func, ast.Attribute) and e.func.attr in PURE_QUERIES:
+            r = e.func.value
+            while isinstance(r, ast.Attribute):
+                r = r.value
+            return isinstance(r, ast.Name)
         # one-argument type predicates of the standard library on a local (``is_method = inspect.ismethod(value)``): they look at the object, they call nothing of it
         if isinstance(e, ast.Call) and len(e.args) == 1 and not e.keywords and isinstance(e.args[0], ast.Name) and norm(e.func) in PURE_TYPE_PREDICATES:
             return True
@@ -524,6 +531,23 @@ class FuncFacts:
         fs = self.in_.get(n.id)
         return frozenset() if fs is TOP or fs is None else fs
 
+    def edge_infeasible(self, n: Node, label: Optional[str]) -> bool:
+        """The branch ``label`` of the test ``n`` contradicts what is known on every way to it (``if x is None`` right after ``while x is not None`` took its body):
+        such an edge is no path of the program -- path rules that ignore it lose nothing, and stop reporting the loop's impossible early exit."""
+        if n.kind != 'test' or label not in ('true', 'false') or not self.reachable(n):
+            return False
+        fs = self.at(n)
+        try:
+            new = self.cond_atoms(self.subst_flags(strip_cast(n.ast.test), fs), label == 'true')   # type: ignore[union-attr]
+        except Exception:  # noqa: BLE001
+            return False
+        opposite = {'none': 'notnone', 'notnone': 'none', 'T': 'F', 'F': 'T'}
+        return any(a[0] in opposite and len(a) == 2 and (opposite[a[0]], a[1]) in fs for a in new)
+
+    def feasible(self, a: Node, b: Node, label: Optional[str]) -> bool:
+        """Edge filter for path rules: normal control flow, minus branches the facts rule out."""
+        return label not in ('exc', 'uncaught', 'handler') and not self.edge_infeasible(a, label)
+
     def site_fact_cases(self, call: ast.Call) -> List[Tuple[Node, FrozenSet[Atom]]]:
         """Like ``site_facts``, but a site that is the first thing run under ``if a or b:`` (or in the else of ``if a and b:``) is
         reported once per way of getting there -- ``a`` true; ``a`` false and ``b`` true -- each with everything that way knows.
@@ -618,10 +642,11 @@ class FuncFacts:
                     ip, _ = self.eng.call_is_ip(self.func, x)
                     kill_all |= ip
                     writes |= self.eng.call_writes(self.func, x)
+        fs0 = fs
         fs = self._apply_kills(fs, kill_all, writes)
-        return fs | frozenset(self._short_circuit_atoms(e, call))
+        return fs | frozenset(self._short_circuit_atoms(e, call, fs0))
 
-    def _short_circuit_atoms(self, root: ast.AST, call: ast.Call) -> Set[Atom]:
+    def _short_circuit_atoms(self, root: ast.AST, call: ast.Call, fs=None) -> Set[Atom]:
         """``a and f()``: f runs only if a was true;  ``a or f()``: only if a was false;  ``f() if c else y``: only if c."""
         out: Set[Atom] = set()
 
@@ -636,7 +661,8 @@ class FuncFacts:
                     if contains(v):
                         for prev in n.values[:i]:
                             if not self._kills_of_expr(prev)[0]:
-                                out.update(self.cond_atoms(prev, isinstance(n.op, ast.And)))
+                                # (a local that stands for a predicate counts as that predicate: ``ok = a and not b`` ; ``ok and f()``)
+                                out.update(self.cond_atoms(self.subst_flags(prev, fs) if fs else prev, isinstance(n.op, ast.And)))
                         walk(v)
                         return
                 return
